@@ -195,8 +195,8 @@ func (o *Obligation) Solve(opts SolveOpts) {
 			gt = 15
 		}
 		gf0 := filepath.Join(opts.OutDir, fileName(o.Name)+".reals.smt2")
-		os.WriteFile(gf, []byte(o.SMTGround(gt*1000, opts.Seed, false)), 0o644)
-		os.WriteFile(gf0, []byte(o.SMTGround(gt*1000, opts.Seed, true)), 0o644)
+		os.WriteFile(gf, []byte(o.SMTGround(gt*1000, opts.Seed, 1)), 0o644)
+		os.WriteFile(gf0, []byte(o.SMTGround(gt*1000, opts.Seed, 0)), 0o644)
 		start := time.Now()
 		ch := make(chan solverResult, 4)
 		ctx, cancel := context.WithCancel(context.Background())
@@ -215,6 +215,33 @@ func (o *Obligation) Solve(opts SolveOpts) {
 			}
 		}
 		cancel()
+		if got == nil {
+			// third relaxation: heap reads kept as array selects (relates reads through different slices)
+			gf2 := filepath.Join(opts.OutDir, fileName(o.Name)+".ground2.smt2")
+			os.WriteFile(gf2, []byte(o.SMTGround(gt*1000, opts.Seed, 2)), 0o644)
+			gf3 := filepath.Join(opts.OutDir, fileName(o.Name)+".ground3.smt2")
+			os.WriteFile(gf3, []byte(o.SMTGround(gt*1000, opts.Seed, 3)), 0o644)
+			ch2 := make(chan solverResult, 4)
+			ctx2, cancel2 := context.WithCancel(context.Background())
+			for _, file := range []string{gf2, gf3} {
+				for _, sc := range []SolverCfg{Solvers[0], Solvers[2]} {
+					sc, file := sc, file
+					go func() { ch2 <- runSolver(ctx2, sc, file, gt, opts.Seed) }()
+				}
+			}
+			for i := 0; i < 4; i++ {
+				r := <-ch2
+				if r.status == "unsat" {
+					got = &r
+					break
+				}
+			}
+			cancel2()
+			if !opts.Keep {
+				os.Remove(gf2)
+				os.Remove(gf3)
+			}
+		}
 		if !opts.Keep {
 			os.Remove(gf0)
 		}
